@@ -80,7 +80,7 @@ def ready_items(prop, cfg, n, seed):
     return out
 
 
-PROBE_PROPS = ('C01', 'C09', 'C17')
+PROBE_PROPS = ('C01', 'C02', 'C09', 'C17')
 
 
 def probe_smoke(prop, cfg, n, seed):
